@@ -1277,4 +1277,190 @@ theorem step_ok (s s' : St) (e : Ev) (ha : AllRec s) (hs : step s e = some s') :
     · simp at hs; subst hs; exact ⟨ha, fun _ => Steps.refl _⟩
     · cases hs
 
+/-! ## runs -/
+
+/-- no event of the run is the D16 critical section (`clearsLive`) -/
+def SafeRun : St → List Ev → Prop
+  | _, [] => True
+  | s, e :: es => clearsLive s e = false ∧ (∀ s', step s e = some s' → SafeRun s' es)
+
+structure Good (s : St) : Prop where
+  recs : AllRec s
+  chain : Chain.Inv (proj s)
+
+theorem good_init : Good {} := by
+  refine ⟨?_, ?_⟩
+  · intro r x hx; simp at hx
+  · exact Chain.init_inv
+
+theorem allRec_run (s s' : St) (es : List Ev) (h : AllRec s) (hr : model.run s es = some s') : AllRec s' := by
+  induction es generalizing s with
+  | nil => simp [OLTS.run] at hr; subst hr; exact h
+  | cons e es ih =>
+    simp only [OLTS.run] at hr
+    cases hst : model.step s e with
+    | none => simp [hst] at hr
+    | some s1 =>
+      simp [hst] at hr
+      exact ih s1 (step_ok s s1 e h hst).1 hr
+
+theorem good_run (s s' : St) (es : List Ev) (h : Good s) (hsafe : SafeRun s es)
+    (hr : model.run s es = some s') : Good s' := by
+  induction es generalizing s with
+  | nil => simp [OLTS.run] at hr; subst hr; exact h
+  | cons e es ih =>
+    simp only [OLTS.run] at hr
+    cases hst : model.step s e with
+    | none => simp [hst] at hr
+    | some s1 =>
+      simp [hst] at hr
+      have hk := step_ok s s1 e h.recs hst
+      exact ih s1 ⟨hk.1, (hk.2 hsafe.1).inv h.chain⟩ (hsafe.2 s1 hst) hr
+
+theorem chain_closed_mono (a b : Chain.Slot) (e : Chain.Ev) (h : Chain.step a e = some b) (n : Nat)
+    (hc : Chain.isClosed a n = true) : Chain.isClosed b n = true := by
+  have key : ∀ (i : Nat) (x y : Chain.Inst), a.insts[i]? = some x → x.st ≠ .closed →
+      Chain.isClosed { a with insts := a.insts.set i y } n = true := by
+    intro i x y hx hne
+    unfold Chain.isClosed at hc ⊢
+    simp only [List.getElem?_set]
+    by_cases hin : i = n
+    · subst hin; simp [hx] at hc; exact absurd hc hne
+    · simpa [hin] using hc
+  cases e with
+  | spawn => simp [Chain.step] at h; subst h; rw [Chain.isClosed_spawn]; exact hc
+  | cancel i =>
+    simp only [Chain.step] at h
+    split at h
+    · rename_i x hx
+      simp at h; subst h
+      unfold Chain.isClosed at hc ⊢
+      simp only [List.getElem?_set]
+      by_cases hin : i = n
+      · subst hin; simp [hx] at hc; simp [get_lt hx, hc]
+      · simpa [hin] using hc
+    · cases h
+  | proceed i =>
+    simp only [Chain.step] at h
+    split at h
+    · rename_i x hx
+      split at h
+      · rename_i hg; simp at h; subst h; exact key i x _ hx (by simp [hg.1])
+      · cases h
+    · cases h
+  | giveUp i =>
+    simp only [Chain.step] at h
+    split at h
+    · rename_i x hx
+      split at h
+      · rename_i hg; simp at h; subst h; exact key i x _ hx (by simp [hg.1])
+      · cases h
+    · cases h
+  | drained i =>
+    simp only [Chain.step] at h
+    split at h
+    · rename_i x hx
+      split at h
+      · rename_i hg; simp at h; subst h; exact key i x _ hx (by simp [hg.1])
+      · cases h
+    · cases h
+  | ret i =>
+    simp only [Chain.step] at h
+    split at h
+    · rename_i x hx
+      split at h
+      · rename_i hg; simp at h; subst h; exact key i x _ hx (by simp [hg])
+      · cases h
+    · cases h
+  | close i =>
+    simp only [Chain.step] at h
+    split at h
+    · rename_i x hx
+      split at h
+      · rename_i hg; simp at h; subst h; exact key i x _ hx (by simp [hg])
+      · cases h
+    · cases h
+  | forget =>
+    simp only [Chain.step] at h
+    split at h
+    · split at h
+      · simp at h; subst h; exact hc
+      · cases h
+    · cases h
+
+theorem steps_closed_mono {a b : Chain.Slot} (h : Steps a b) (n : Nat) (hc : Chain.isClosed a n = true) :
+    Chain.isClosed b n = true := by
+  obtain ⟨es, h⟩ := h
+  induction es generalizing a with
+  | nil => simp [Chain.run] at h; subst h; exact hc
+  | cons e es ih =>
+    simp only [Chain.run] at h
+    cases hst : Chain.step a e with
+    | none => simp [hst] at h
+    | some a1 => simp [hst] at h; exact ih (chain_closed_mono a a1 e hst n hc) h
+
+theorem closed_run (s s' : St) (es : List Ev) (h : AllRec s) (hsafe : SafeRun s es)
+    (hr : model.run s es = some s') (n : Nat) (hc : instClosed s n = true) : instClosed s' n = true := by
+  induction es generalizing s with
+  | nil => simp [OLTS.run] at hr; subst hr; exact hc
+  | cons e es ih =>
+    simp only [OLTS.run] at hr
+    cases hst : model.step s e with
+    | none => simp [hst] at hr
+    | some s1 =>
+      simp [hst] at hr
+      have hk := step_ok s s1 e h hst
+      have := steps_closed_mono (hk.2 hsafe.1) n (by rw [isClosed_proj]; exact hc)
+      rw [isClosed_proj] at this
+      exact ih s1 hk.1 (hsafe.2 s1 hst) hr this
+
+/-- the wait channel a call returns is the container's `last` exit channel at its critical section -/
+theorem apiCS_wr (s : St) (cf : Cfg) (op : Op) (r : St × Res × Option Nat) (h : apiCS s cf op = some r)
+    (p : Nat) (hp : r.2.2 = some p) : lastOf s = some p := by
+  cases op with
+  | setContext c restart => simp [apiCS] at h; subst h; simp at hp
+  | setRoutine f =>
+    simp only [apiCS] at h
+    split at h
+    · cases h
+    · simp at h; subst h; rw [← setRoutineLocked_wr s f 0]; exact hp
+  | restart => simp [apiCS] at h; subst h; simp at hp
+  | setState v =>
+    simp only [apiCS] at h
+    split at h
+    · cases h
+    · simp at h; subst h
+      simp only [setStateCS] at hp
+      split at hp
+      · simp only [updateStateRoutine] at hp
+        rw [setRoutineLocked_wr] at hp; exact hp
+      · simp at hp
+  | setStateRoutine f =>
+    simp only [apiCS] at h
+    split at h
+    · cases h
+    · simp at h; subst h
+      simp only [updateStateRoutine] at hp
+      rw [setRoutineLocked_wr] at hp; exact hp
+  | swap k =>
+    simp only [apiCS] at h
+    split at h
+    · cases h
+    · split at h
+      · split at h
+        · simp only [Option.some.injEq] at h; subst h
+          simp only [setStateCS] at hp
+          split at hp
+          · simp only [updateStateRoutine] at hp
+            rw [setRoutineLocked_wr] at hp; exact hp
+          · simp at hp
+        · simp only [Option.some.injEq] at h; subst h; simp at hp
+      · simp at h; subst h; simp at hp
+  | getState =>
+    simp only [apiCS] at h
+    split at h
+    · cases h
+    · simp at h; subst h; simp at hp
+  | waitExited _ => simp [apiCS] at h
+
 end UtilModel.Routine
